@@ -19,7 +19,7 @@ RULE = ("valid E5 byte strings from the reference encoder with a seeded choice o
         "choices enumerated for every format code), random nestings, finite float bit patterns and reference-accepted "
         "byte mutants; fed to ANYVALUE, Dynamic(types), the typed classes and every catalogued data item for each of "
         "its allowed formats and to Dynamic([]) (all types), each also decoded into an object that already holds another value; distinct by (target, input bytes); non-trivial when it has a non-minimal length field, "
-        "a nesting or >1 element; plus: the same bytes decoded into an object whose value was set with an explicitly typed variable (own element type / length limit)")
+        "a nesting or >1 element; plus: the same bytes decoded into an object whose value was set with an explicitly typed variable (own element type / length limit); every fourth ANYVALUE input also through the item API reader")
 ASSUMPTIONS = ["lib/e5ref.py strict decoder defines which byte strings are valid E5 items and what they denote",
                "format codes the library does not claim to support (2-byte characters 0o22) and non-finite floats are excluded",
                "for A items bytes >= 0x80 only byte-level round-trip is demanded"]
@@ -74,6 +74,22 @@ def _random_lenbytes(rng, p=0.5):
             return rng.randint(need, 3)
         return need
     return choose
+
+
+def _judge_item_api(ctx, data, tree):
+    """The library's second reader of E5 bytes (`secsgem.secs.Item.decode`, judged in depth by C14): the same valid bytes re-encode
+    to the canonical item there as well."""
+    from secsgem.secs import item as I
+
+    ctx.count("oracle.item_api_decode")
+    wit = {"input": data[:100], "tree": gen.describe(tree)}
+    try:
+        enc = I.Item.decode(data).encode()
+    except Exception as exc:
+        ctx.violation(f"item-api-decode-raises:{tree[0]}:{type(exc).__name__}", {**wit, "error": repr(exc)[:200]})
+        return
+    if enc != e5ref.encode(tree):
+        ctx.violation(f"item-api-reencode-not-canonical:{tree[0]}", {**wit, "encoded": enc[:100]})
 
 
 def _judge(ctx, target_name, make_target, data, tree, mech, nontrivial=True, expected=None):
@@ -341,6 +357,8 @@ def run(ctx):
             _judge(ctx, "ANYVALUE", sv.ANYVALUE, data, tree, f"anyvalue:{tree[0]}",
                    nontrivial=nonmin or tree[0] == "L" or len(e5ref.payload(tree)) > 1)
             ctx.count("oracle.anyvalue")
+            if i % 4 == 0:
+                _judge_item_api(ctx, data, tree)
             ctx.maximum("nesting_depth", gen.depth_of(tree))
             if i < 2:
                 ctx.sample({"target": "ANYVALUE", "input_bytes": data[:60], "tree": gen.describe(tree)})
